@@ -102,27 +102,35 @@ func main() {
 	c.Finish()
 }
 
-func startServer(c *vf.Ctx, bin string, w int) (*proc.Server, error) {
+func startServer(c *vf.Ctx, bin string, w int) (*srvBox, error) {
 	dir := filepath.Join(c.Scratch, fmt.Sprintf("srv%d", w))
+	_ = os.RemoveAll(dir)
 	s := proc.New(proc.Config{Bin: bin, Dir: dir, IP: proc.IP(18, w)})
 	if err := s.Start(); err != nil {
 		return nil, err
 	}
+	b := &srvBox{s: s}
+	b.limit()
 	if err := s.WaitReady(120 * time.Second); err != nil {
 		s.Kill()
 		return nil, err
 	}
-	return s, nil
+	return b, nil
 }
 
 func worker(c *vf.Ctx, bin string, w, workers, nsets, nexpr int) {
-	s, err := startServer(c, bin, w)
+	box, err := startServer(c, bin, w)
 	if err != nil {
 		c.Broken("worker %d: server: %v", w, err)
 		return
 	}
-	defer s.Kill()
+	s := box.s
+	defer func() { s.Kill() }()
 	for idx := w; idx < nsets; idx += workers {
+		if box.dead {
+			c.Broken("worker %d: ts-server given up after %d restarts", w, box.restarts)
+			return
+		}
 		if !s.Alive() {
 			c.Broken("worker %d: ts-server exited: %v\n%s", w, s.ExitError(), s.StdoutTail(3000))
 			return
@@ -139,7 +147,11 @@ func worker(c *vf.Ctx, bin string, w, workers, nsets, nexpr int) {
 			ref.close()
 			return
 		}
-		run := &setRun{c: c, set: set, ref: ref, og: &og{s: s, db: fmt.Sprintf("prom%d", idx)}}
+		run := &setRun{c: c, set: set, ref: ref, og: &og{b: box, s: s, db: fmt.Sprintf("prom%d", idx)}}
+		box.onUp = func() bool {
+			c.Count("server-restarts-after-unanswered-query", 1)
+			return (&setRun{c: c, set: set, og: &og{s: s, db: run.og.db}}).waitVisible()
+		}
 		run.ingest = []string{"one-request/memtable", "time-chunked/memtable", "time-chunked/flush-mid", "time-chunked/flush-all"}[rng.IntN(4)]
 		if ok := run.load(); ok {
 			run.describe()
@@ -212,7 +224,12 @@ func (r *setRun) load() bool {
 		c.Broken("set %d ingest (%s): %v", r.set.Index, r.ingest, err)
 		return false
 	}
-	// visibility rule: every series must have been returned by a PromQL query
+	return r.waitVisible()
+}
+
+// waitVisible: visibility rule — every series must have been returned by a PromQL query.
+func (r *setRun) waitVisible() bool {
+	c := r.c
 	probeT := r.set.End + 10*60*1000
 	for attempt := 0; attempt < 300; attempt++ {
 		all := true
@@ -553,11 +570,12 @@ func replay(c *vf.Ctx, bin string) {
 			}
 		}
 	}
-	s, err := startServer(c, bin, 0)
+	box, err := startServer(c, bin, 0)
 	if err != nil {
 		c.Broken("replay: server: %v", err)
 		return
 	}
+	s := box.s
 	defer s.Kill()
 	ref, err := newRef(filepath.Join(c.Scratch, "ref-replay"))
 	if err != nil {
@@ -569,7 +587,7 @@ func replay(c *vf.Ctx, bin string) {
 		c.Broken("replay: %v", err)
 		return
 	}
-	run := &setRun{c: c, set: set, ref: ref, og: &og{s: s, db: "promreplay"}, ingest: w.Ingest}
+	run := &setRun{c: c, set: set, ref: ref, og: &og{b: box, s: s, db: "promreplay"}, ingest: w.Ingest}
 	if run.ingest == "" {
 		run.ingest = "one-request/memtable"
 	}
